@@ -172,6 +172,8 @@ def build(r):
         return FUNCS[r[1]]
     if k == "var":
         return Variable(r[1], GETTERS[r[2]], type=r[3])
+    if k == "varattr":
+        return Variable(r[1], GETTERS[r[2]], type=r[3], run=2015, fill="no", compute=0, request=None, fill_into=1)
     if k == "filter":
         return Filter(PREDS[r[1]])
     if k == "slice":
@@ -243,7 +245,7 @@ def build_branch(b):
 
 def kind(r):
     k = r[0]
-    if k in ("map", "var", "print", "callfc"):
+    if k in ("map", "var", "varattr", "print", "callfc"):
         return "call"
     if k in ACCS:
         return "acc"
@@ -332,6 +334,16 @@ def fillable_recipes():
         st.builds(lambda p, xs: ["runif", p, xs], st.sampled_from(sorted(PREDS)),
                   st.lists(st.builds(lambda f: ["map", f], st.sampled_from(sorted(FUNCS))),
                            max_size=2)),
+        # RunIf around elements that depend on their flow: every selected value is a flow of its own
+        st.builds(lambda p, xs: ["runif", p, xs], st.sampled_from(["all", "all", "pos", "has_ctx", "datum"]),
+                  st.lists(st.one_of(st.builds(lambda f: ["map", f], st.sampled_from(sorted(FUNCS))),
+                                     st.builds(lambda a: ["slice", a], st.integers(0, 2)),
+                                     st.builds(lambda a, b: ["slice", a, b], st.integers(0, 1), st.integers(0, 2)),
+                                     st.builds(lambda p: ["filter", p], st.sampled_from(sorted(PREDS)))),
+                           min_size=1, max_size=2)),
+        # a Variable that carries attributes named like methods (keyword arguments become attributes)
+        st.builds(lambda n, g, t: ["varattr", n, g, t], st.sampled_from(["v1", "v2"]),
+                  st.sampled_from(sorted(GETTERS)), st.sampled_from(["", "ta"])),
     )
 
 
